@@ -115,6 +115,11 @@ def cases(draw, tier):
             spec[key] = [{"grp": draw(st.sampled_from(["x", "y", "z"])),
                           "k": draw(st.sampled_from(["a", "b"])),
                           "uid": i} for i in ids]
+            if draw(st.sampled_from([False, False, True])):
+                # the table is itself the result of an earlier collapse:
+                # every ID already lists what *it* was collapsed from
+                for m_, i in zip(spec[key], ids):
+                    m_["collapsed_ids"] = ["was-" + i, "and-" + i]
     spec["history"] = [o for o in spec["history"]
                        if o["op"] not in ("transpose", "rename")]
     what = draw(st.sampled_from(["partition", "partition", "collapse",
